@@ -1,9 +1,60 @@
-(* C04 — PAR1 create / verify / repair round trip (interim; the PAR1 theorems of Proofs/GF8Facts.v and
-   Proofs/Par1Facts.v are added when they land). *)
-From Gopar Require Import Model.Base Model.Matrix Model.GF8.
+(* C04 — PAR1 create / verify / repair round trip.
+   Model: Model/GF8.v (GF(2^8) mod 0x11D; klauspost/reedsolomon with WithPAR1Matrix: Encode, Reconstruct,
+   Verify) and Model/Par1.v (Create, the decoder, Verify, Repair) over Model/FS.v. *)
+From Gopar Require Import Model.Base Model.Matrix Model.RS16 Model.GF8 Model.CRC Model.GoPath Model.FS Model.Par1
+     Proofs.LinAlg Proofs.GoPathFacts Proofs.Par2Facts Proofs.GF8Facts Proofs.Par1Facts.
 Open Scope N_scope.
 
-(* the PAR1 parity matrix as the library builds it: row r, column c = (c+1)^r; first rows of a 3-file, 3-volume code *)
-Theorem C04_par1_matrix : par1_pm 3 3 = [[1; 1; 1]; [1; 2; 3]; [1; 4; 5]].
+(* Reconstruct, for EVERY file count, volume count, content and EVERY subset of surviving data files and
+   parity volumes: success returns exactly the original data (and parity); the only failures are
+   too-few-shards and the singular combination inherent to the PAR1 matrix; never a panic *)
+Theorem C04_reconstruct_exact : forall d p D L keep,
+  (0 < d)%nat -> (0 < p)%nat -> (d + p <= 256)%nat -> wfm8 d L D -> (0 < L)%nat -> length keep = (d + p)%nat ->
+  let all := D ++ par1_encode d p D in
+  match par1_reconstruct d p (erase keep all) with
+  | Ok full => full = all
+  | Err e => e = ENotEnoughParity \/ e = ESingular
+  | Panic _ => False
+  end.
+Proof. exact par1_reconstruct_sound. Qed.
+Print Assumptions C04_reconstruct_exact.
+
+(* too few shards exactly when fewer than d of the d+p files survive *)
+Theorem C04_too_few : forall d p (shards : list (option bytes)), length shards = (d + p)%nat ->
+  (par1_reconstruct d p shards = Err ENotEnoughParity <-> (count_present shards < d)%nat).
+Proof. exact par1_reconstruct_too_few. Qed.
+Print Assumptions C04_too_few.
+
+(* Verify: for every state, when no data file is counted unusable every saved file is present with its
+   recorded MD5 and 16k-MD5; Verify modifies nothing and writes nothing *)
+Theorem C04_clean_means_intact : forall md5 ix all fs c ok st,
+  par1_verify md5 ix all (io_init fs []) = (Ok (c, ok), st) -> fc_unusable c = 0%nat ->
+  exists s st1, p1_load md5 ix (io_init fs []) = (Ok s, st1) /\
+    Forall (fun e => exists data, fs_lookup fs (join2 (dir ix) (e_name e)) = Some data /\
+                      md5 data = e_hash e /\ Par1.hash16k md5 data = e_h16 e) (s_saved s).
+Proof. exact par1_verify_clean_intact. Qed.
+Print Assumptions C04_clean_means_intact.
+
+Theorem C04_verify_pure : forall md5 ix all st, io_fs (snd (par1_verify md5 ix all st)) = io_fs st.
+Proof. exact par1_verify_pure. Qed.
+Print Assumptions C04_verify_pure.
+
+(* Repair writes only data of the entry's length matching both of its hashes, to Dir(index)/name, and lists exactly those *)
+Theorem C04_repair_writes : forall md5 ix dbl fs r rp st',
+  par1_repair md5 ix dbl (io_init fs []) = ((r, rp), st') ->
+  (io_fs st' = fs /\ rp = []) \/
+  exists s st1 ws,
+    p1_load md5 ix (io_init fs []) = (Ok s, st1) /\
+    io_fs st' = apply_writes ws fs /\ rp = map fst ws /\
+    Forall (fun w => exists e, In e (s_saved s) /\ base (e_name e) = e_name e /\
+                       fst w = join2 (dir ix) (e_name e) /\
+                       md5 (snd w) = e_hash e /\ Par1.hash16k md5 (snd w) = e_h16 e /\
+                       N.of_nat (length (snd w)) = e_len e) ws.
+Proof. exact par1_repair_writes. Qed.
+Print Assumptions C04_repair_writes.
+
+(* non-vacuity: 3 files, 2 volumes, files 0 and 2 and volume... lost: two losses, two volumes *)
+Example C04_example :
+  let D := [[1; 2; 3]; [4; 5; 6]; [7; 8; 9]] in
+  par1_reconstruct 3 2 (erase [false; true; false; true; true] (D ++ par1_encode 3 2 D)) = Ok (D ++ par1_encode 3 2 D).
 Proof. vm_compute. reflexivity. Qed.
-Print Assumptions C04_par1_matrix.
